@@ -29,14 +29,29 @@ class HippoLLSDBaseFormatter(base_llsd.base.LLSDBaseFormatter):
         return self.ARRAY(v.data())
 
 
+def _to_naive_utc(v):
+    # The textual date format has no way to express an offset, it always ends in "Z".
+    # Timezone-aware datetimes (like the binary parser returns) have to be converted
+    # to naive UTC first or we'd write out an unparseable "...+00:00Z".
+    if isinstance(v, datetime.datetime) and v.tzinfo is not None:
+        return v.astimezone(datetime.timezone.utc).replace(tzinfo=None)
+    return v
+
+
 class HippoLLSDXMLFormatter(base_llsd.serde_xml.LLSDXMLFormatter, HippoLLSDBaseFormatter):
     def __init__(self):
         super().__init__()
+
+    def DATE(self, v):
+        return super().DATE(_to_naive_utc(v))
 
 
 class HippoLLSDXMLPrettyFormatter(base_llsd.serde_xml.LLSDXMLPrettyFormatter, HippoLLSDBaseFormatter):
     def __init__(self):
         super().__init__()
+
+    def DATE(self, v):
+        return super().DATE(_to_naive_utc(v))
 
 
 def format_pretty_xml(val: typing.Any) -> bytes:
@@ -56,6 +71,9 @@ class HippoLLSDNotationFormatter(base_llsd.serde_notation.LLSDNotationFormatter,
         # LLSD because the string formatter leaves \n unencoded, unlike indra's llcommon.
         # Add our own escaping rule.
         return super().STRING(v).replace(b"\n", b"\\n")
+
+    def DATE(self, v):
+        return super().DATE(_to_naive_utc(v))
 
 
 def format_notation(val: typing.Any) -> bytes:
